@@ -1121,7 +1121,8 @@ def rule_checks(repo, rep, gen):
             cs = [x for x in calls_in(f, chk) if norm(x.args[0]) == carg and norm(x.args[1]) == "16"]
             es = [x for x in ast.walk(f) if isinstance(x, ast.Call) and norm(x.func).startswith("emit.cmd1") and len(x.args) > 1 and norm(x.args[1]) == earg]
             if not es:
-                raise AnalysisError(f"{fn}: emission of {earg} not found")
+                rep.bad("C06-g", _site(fn), f"`{earg}` (the value that is checked) is what is emitted", f"no emit.cmd1 call writes `{earg}`: the register gets another core's / range's value than the one checked")
+                continue
             for e in es:
                 ok = any(c.dominates(c.node_of(x), c.node_of(e)) for x in cs)
                 rep.check(ok, "C06-g", _site(fn), f"{chk}({carg}, 16) dominates emission of {earg}", "unchecked emission")
